@@ -29,7 +29,29 @@ def run(rep):
 
     def nontrivial(op, impl):
         return impl.startswith("ok ") or impl.startswith("code ") or (impl.startswith("x ") and " eq " in impl)
-    bad_spec, bad_model = V.correspondence(rep, "sq", rows, stats, nontrivial=nontrivial)
+
+    # One comparison per input route, so that a defect of one route (reader sugar, hash
+    # templates, macro path …) is reported with its own failing input and does not hide
+    # behind the shortest inputs of another.
+    def category(op):
+        t = op.split(" ")
+        if t[1] == "m":
+            return "sq/macro-" + t[2]
+        if t[1] == "c":
+            return "sq/listing"
+        if "{" in t:
+            return "sq/hash-template"
+        return {"sv": "sq/reader-sugar", "sh": "sq/reader-sugar", "lg": "sq/longhand", "dr": "sq/go-api"}.get(t[2], "sq/other")
+    cats = {}
+    for r in rows:
+        cats.setdefault(category(r[0]), []).append(r)
+    bad_spec, bad_model = [], []
+    first = True
+    for name in sorted(cats):
+        bs, bm = V.correspondence(rep, name, cats[name], stats if first else {}, nontrivial=nontrivial, max_report=2)
+        first = False
+        bad_spec += bs
+        bad_model += bm
     rep.coverage["exhaustive"] = False
     rep.coverage["rule"] = ("sq t: every sequence of length <= 3 over {literal, ~int, ~list, ~@(), ~@(1), ~@(1 2), nested list with splice, nested array with unquote} "
                             "as list and as array, through reader sugar, longhand and Go-API routes (exhaustive), plus random templates nested to depth 4 with error cases; "
